@@ -583,3 +583,307 @@ Section SourceExampleV.
     destruct H as (r & A & B). congruence.
   Qed.
 End SourceExampleV.
+Print Assumptions C12_source_level_all_modes_nonvacuous.
+
+(** * Source level over the EXTENDED document grammar (composition with [C02_parse_unparse2_partial])
+
+    [Doc/DocGrammar2.v]: the core grammar plus environments (arguments, math
+    bodies), [$$ .. $$], specials, optional delimited arguments / star written or
+    absent, single-token mandatory arguments, verbatim macro / environments /
+    arguments, and COMMENTS IN FRONT OF ARGUMENTS ([Pre2 ws text post a]).
+
+    [sbc2 vb eqn i i'] ([Proofs/Compose2Comments.v]): same constructors, same
+    whitespace / name / post-space / delimiter / verbatim-text fields everywhere;
+    comment texts ([Cmt2], [Pre2]) free; and when [vb]: formulas ([Math2]) are
+    identical, environments whose name satisfies [eqn] are identical.
+    - [same_but_comments2 := sbc_doc2 false _]: comments free EVERYWHERE;
+    - [same_but_comments_outside_math2 lt := sbc_doc2 true (is_eqenv lt)]: comments
+      free everywhere except inside formulas and equation environments (the
+      environments rendered by [fmt_equation_environment], whose SOURCE is
+      reproduced in verbatim mode) — in particular free inside every other
+      environment (center, itemize, tabular ...). *)
+From PLV Require Import Doc.DocGrammar2 Proofs.Compose2Rel Proofs.Compose2Comments.
+
+(** the tree-level glue, refined: as [C12_relational] but the source slice of an
+    environment has to agree only for equation environments.  [vbr] / [eqn] may be
+    stronger than what the options / the database need. *)
+Theorem C12_relational2 : forall src src' lt cx o vbr eqn,
+  (match o_math o with MMVerbatim => true | _ => false end = true -> vbr = true) ->
+  (match o_math o with MMVerbatim => true | _ => false end = true -> forall nm, is_eqenv lt nm = true -> eqn nm = true) ->
+  forall n n', vrelq src src' (o_keep_comments o) vbr eqn n n' ->
+  forall sl st, node_text src lt cx o sl st n = node_text src' lt cx o sl st n'.
+Proof. exact vrelq_text_gen. Qed.
+Print Assumptions C12_relational2.
+
+(** the meanings of two such documents are related (any context, any parsing state, any [vb] / [eqn]) *)
+Theorem C12_trees_same_but_comments2 : forall cx vb eqn ps d d',
+  sbc_doc2 vb eqn d d' -> ok_doc2 cx d = true -> ok_doc2 cx d' = true ->
+  vallq (unparse2 d) (unparse2 d') false vb eqn (fst (tree_of2 cx ps 0 d)) (fst (tree_of2 cx ps 0 d')).
+Proof.
+  intros cx vb eqn ps d d' W O O'.
+  exact (tree_sbc2 cx (unparse2 d) (unparse2 d') vb eqn ps d d' W (ok_doc_arity2 cx d O) (ok_doc_arity2 cx d' O')
+           eq_refl eq_refl).
+Qed.
+Print Assumptions C12_trees_same_but_comments2.
+
+(** two documents of the extended grammar that differ only in the text of their
+    comments — anywhere: top level, groups, arguments, in front of arguments,
+    environment bodies, formulas — are converted to the same text when
+    [keep_comments] is off and the math mode is not verbatim.
+
+    PARTIAL: the extended grammar of [C02_parse_unparse2_partial] (see notes/C02.md for what it leaves out). *)
+Theorem C12_source_level2_partial : forall o d d',
+  same_but_comments2 d d' ->
+  ok_doc2 Gen.GenWalkerCtx.default_ctx d = true -> ok_doc2 Gen.GenWalkerCtx.default_ctx d' = true ->
+  o_keep_comments o = false -> o_math o <> MMVerbatim ->
+  exists r, latex_to_text o (unparse2 d) false = Some r /\ latex_to_text o (unparse2 d') false = Some r.
+Proof. exact source_level2. Qed.
+Print Assumptions C12_source_level2_partial.
+
+(** ALL four math modes: formulas and equation environments identical *)
+Theorem C12_source_level2_all_modes_partial : forall o d d',
+  same_but_comments_outside_math2 Gen.GenL2TCtx.default_l2tctx d d' ->
+  ok_doc2 Gen.GenWalkerCtx.default_ctx d = true -> ok_doc2 Gen.GenWalkerCtx.default_ctx d' = true ->
+  o_keep_comments o = false ->
+  exists r, latex_to_text o (unparse2 d) false = Some r /\ latex_to_text o (unparse2 d') false = Some r.
+Proof. exact source_level_all_modes2. Qed.
+Print Assumptions C12_source_level2_all_modes_partial.
+
+(** non-vacuity:
+    [a %c1\n\begin{center}b%c2\n\end{center}\textbf%c3\n{c}\sqrt[2%c4\n]{x} $x%c5\n$\begin{equation}y\end{equation}z\n]
+    — comments at top level, in an environment body, IN FRONT OF the argument of [\textbf], inside an
+    optional argument, inside a formula.  [dA], [dB] differ in c1..c4 (same formula): same output in
+    verbatim mode (the comment inside the formula is reproduced in both); [dA], [dC] differ in all
+    five: same output in text mode, different output in verbatim mode (so the hypothesis of the
+    all-modes theorem is needed) *)
+Section SourceExample2.
+  Open Scope N_scope.
+  Let mkd (c1 c2 c3 c4 c5 : str) : doc2 :=
+    {| d_items2 :=
+      [Text2 [] [97]; Cmt2 [32] c1 [10];
+       Env2 [] [] [99;101;110;116;101;114] [] [Text2 [] [98]; Cmt2 [] c2 [10]] [] [];
+       Mac2 [] [116;101;120;116;98;102] [] [Pre2 [] c3 [10] (Grp2 [] [Text2 [] [99]] [])];
+       Mac2 [] [115;113;114;116] [] [Brk2 [] 91 93 [Text2 [] [50]; Cmt2 [] c4 [10]] []; Grp2 [] [Text2 [] [120]] []];
+       Math2 [32] MDollar [Text2 [] [120]; Cmt2 [] c5 [10]] [];
+       Env2 [] [] [101;113;117;97;116;105;111;110] [] [Text2 [] [121]] [] [];
+       Text2 [] [122]];
+     d_trail2 := [10] |}.
+  Let dA := mkd [83] [73;78] [65] [66;66] [81].
+  Let dB := mkd [88;88;88] [] [] [67] [81].
+  Let dC := mkd [88;88;88] [] [] [67] [].
+  Let o_of (mm : mathmode) : opts :=
+    {| o_math := mm; o_keep_comments := false; o_sls := sls_bos; o_kbg := false; o_kbg_minlen := 0 |}.
+  Let cx0 := Gen.GenWalkerCtx.default_ctx.
+  Example C12_source_level2_nonvacuous :
+    same_but_comments2 dA dC /\ same_but_comments_outside_math2 Gen.GenL2TCtx.default_l2tctx dA dB
+    /\ ok_doc2 cx0 dA = true /\ ok_doc2 cx0 dB = true /\ ok_doc2 cx0 dC = true
+    /\ length (unparse2 dA) = 104%nat /\ unparse2 dA <> unparse2 dB /\ unparse2 dA <> unparse2 dC
+    (* text mode: [a \n\nb\n\nc√(x)x\n    y\nz\n] for all three *)
+    /\ option_map fst (latex_to_text (o_of MMText) (unparse2 dA) false)
+       = Some [97; 32; 10; 10; 98; 10; 10; 99; 8730; 40; 120; 41; 120; 10; 32; 32; 32; 32; 121; 10; 122; 10]
+    /\ latex_to_text (o_of MMText) (unparse2 dA) false = latex_to_text (o_of MMText) (unparse2 dC) false
+    (* verbatim mode: [a \n\nb\n\nc√(x)$x%Q\n$\n\begin{equation}y\end{equation}\nz\n] *)
+    /\ option_map fst (latex_to_text (o_of MMVerbatim) (unparse2 dA) false)
+       = Some [97; 32; 10; 10; 98; 10; 10; 99; 8730; 40; 120; 41; 36; 120; 37; 81; 10; 36; 10; 92; 98; 101; 103; 105;
+               110; 123; 101; 113; 117; 97; 116; 105; 111; 110; 125; 121; 92; 101; 110; 100; 123; 101; 113; 117; 97;
+               116; 105; 111; 110; 125; 10; 122; 10]
+    /\ latex_to_text (o_of MMVerbatim) (unparse2 dA) false = latex_to_text (o_of MMVerbatim) (unparse2 dB) false
+    /\ latex_to_text (o_of MMVerbatim) (unparse2 dA) false <> latex_to_text (o_of MMVerbatim) (unparse2 dC) false.
+  Proof.
+    assert (W1 : same_but_comments2 dA dC)
+      by (unfold same_but_comments2, sbc_doc2; cbn; repeat split; discriminate).
+    assert (W2 : same_but_comments_outside_math2 Gen.GenL2TCtx.default_l2tctx dA dB)
+      by (unfold same_but_comments_outside_math2, sbc_doc2; cbn; repeat split; try discriminate;
+          try (intros _ Q; vm_compute in Q; discriminate)).
+    split; [exact W1|]. split; [exact W2|].
+    split; [vm_compute; reflexivity|]. split; [vm_compute; reflexivity|]. split; [vm_compute; reflexivity|].
+    split; [vm_compute; reflexivity|]. split; [vm_compute; discriminate|]. split; [vm_compute; discriminate|].
+    split; [vm_compute; reflexivity|].
+    split.
+    { assert (H : exists r, latex_to_text (o_of MMText) (unparse2 dA) false = Some r
+                            /\ latex_to_text (o_of MMText) (unparse2 dC) false = Some r)
+        by (apply C12_source_level2_partial;
+            [exact W1 | vm_compute; reflexivity | vm_compute; reflexivity | reflexivity | discriminate]).
+      destruct H as (r & A & B). congruence. }
+    split; [vm_compute; reflexivity|].
+    split.
+    { assert (H : exists r, latex_to_text (o_of MMVerbatim) (unparse2 dA) false = Some r
+                            /\ latex_to_text (o_of MMVerbatim) (unparse2 dB) false = Some r)
+        by (apply C12_source_level2_all_modes_partial;
+            [exact W2 | vm_compute; reflexivity | vm_compute; reflexivity | reflexivity]).
+      destruct H as (r & A & B). congruence. }
+    vm_compute. discriminate.
+  Qed.
+End SourceExample2.
+Print Assumptions C12_source_level2_nonvacuous.
+
+(** * Covered positions, extended ([Proofs/Covered2.v])
+
+    [covered2 lt cx o thru_strip leaf n]: the positions of [covered] plus
+    - the arguments of the replacement CALLABLES that pass an argument's text through
+      unchanged or wrapped: both arguments of [\href] ([CHref]), the optional argument of
+      [\item] ([CItem]), the title argument of [\subsection] / [\subsubsection] /
+      [\paragraph] / [\subparagraph] ([CSection _ false] — not [\part] / [\chapter] /
+      [\section], which upper-case it), both arguments of [CUebung], the rendered argument of
+      [\texorpdfstring] ([CTexorpdf]);
+    - matrix cells: every body item other than [&] / [\\] of an environment rendered by
+      [CMatrix] (array, pmatrix, bmatrix, ...), for a marker that is [solid] (the cell text
+      is [strip()]ped, right-justified and joined).
+    [covered ⊆ covered2] ([C12_covered_positions_extend]). *)
+From PLV Require Import Proofs.Covered2.
+
+Theorem C12_covered2_infix : forall src lt cx o thru_strip (leaf : node -> Prop) w,
+  (thru_strip = true -> solid w = true) ->
+  (forall x, leaf x -> forall sl st,
+     infix w (fst (node_text src lt cx o sl st x))
+     /\ infix w (fst (arg_text_g (node_text src lt cx o) sl st (Some x)))) ->
+  forall n, covered2 lt cx o thru_strip leaf n ->
+  (forall sl st, infix w (fst (node_text src lt cx o sl st n)))
+  /\ (forall sl st, infix w (fst (arg_text_g (node_text src lt cx o) sl st (Some n)))).
+Proof. exact covered2_infix. Qed.
+Print Assumptions C12_covered2_infix.
+
+Theorem C12_covered_positions_extend : forall lt cx o thru (leaf : node -> Prop) n,
+  covered lt cx o thru leaf n -> covered2 lt cx o thru leaf n.
+Proof. exact covered_covered2. Qed.
+Print Assumptions C12_covered_positions_extend.
+
+(** every kept comment at a [covered2] position is present in the output.
+    PARTIAL (positions): false — witnesses below — for accents, math alphabets, upper-casing
+    section macros, [\title]-like macros, arguments a template does not mention, arguments of
+    environments, and comments in front of an argument (not in the tree at all). *)
+Theorem C12_comments_kept_covered2_partial : forall src lt cx o,
+  o_keep_comments o = true -> forall tm c n,
+  (tm = true -> solid (37%N :: c) = true) ->
+  covered2 lt cx o tm (is_comment_with c) n ->
+  forall sl st, infix (37%N :: c) (fst (node_text src lt cx o sl st n)).
+Proof. exact kept_comment_covered2. Qed.
+Print Assumptions C12_comments_kept_covered2_partial.
+
+(** the source of every verbatim formula at a [covered2] position is present in the output
+    (through [strip()] — formula bodies, matrix cells — when it is [solid]) *)
+Theorem C12_math_verbatim_covered2_partial : forall src lt cx o,
+  o_math o = MMVerbatim -> forall tm p e n,
+  (tm = true -> solid (slice src p e) = true) ->
+  covered2 lt cx o tm (is_math_at p e) n ->
+  forall sl st, infix (slice src p e) (fst (node_text src lt cx o sl st n)).
+Proof. exact verbatim_math_covered2. Qed.
+Print Assumptions C12_math_verbatim_covered2_partial.
+
+Section Covered2Examples.
+  Open Scope N_scope.
+  Let lt0 := Gen.GenL2TCtx.default_l2tctx.
+  Let cx0 := Gen.GenWalkerCtx.default_ctx.
+
+  (** the callables of the default database (regenerated from /repo on every run) that the
+      new positions are about *)
+  Example C12_default_callables :
+    macro_callable lt0 [105;116;101;109] = Some CItem /\ macro_callable lt0 [104;114;101;102] = Some CHref
+    /\ macro_callable lt0 [116;101;120;111;114;112;100;102;115;116;114;105;110;103] = Some CTexorpdf
+    /\ (exists pr, macro_callable lt0 [115;117;98;115;101;99;116;105;111;110] = Some (CSection pr false))
+    /\ (exists pr, macro_callable lt0 [115;117;98;115;117;98;115;101;99;116;105;111;110] = Some (CSection pr false))
+    /\ (exists pr, macro_callable lt0 [112;97;114;97;103;114;97;112;104] = Some (CSection pr false))
+    /\ (exists pr, macro_callable lt0 [115;117;98;112;97;114;97;103;114;97;112;104] = Some (CSection pr false))
+    /\ (exists pr, macro_callable lt0 [115;101;99;116;105;111;110] = Some (CSection pr true))
+    /\ (exists pr, macro_callable lt0 [99;104;97;112;116;101;114] = Some (CSection pr true))
+    /\ (exists pr, macro_callable lt0 [112;97;114;116] = Some (CSection pr true))
+    /\ forallb (fun e => match env_callable lt0 e with Some CMatrix => true | _ => false end)
+         [[97;114;114;97;121]; [112;109;97;116;114;105;120]; [98;109;97;116;114;105;120]; [115;109;97;108;108;109;97;116;114;105;120]; [112;115;109;97;108;108;109;97;116;114;105;120]; [98;115;109;97;108;108;109;97;116;114;105;120]] = true.
+  Proof. vm_compute. repeat split; eexists; reflexivity. Qed.
+
+  (** non-vacuity: [\item[x%A\n] \subsection{a%B\n}\texorpdfstring{a}{b%C\n}\begin{pmatrix}a%D\n&b\end{pmatrix}] parsed under the default context; the four comments [%A] (optional
+      argument of [\item]), [%B] (title of [\subsection]), [%C] (second argument of
+      [\texorpdfstring]), [%D] (matrix cell) are at [covered2] positions — none of them at a
+      [covered] position of the earlier theorem — and the output, evaluated independently, is
+      [\n  x%A\n\n\n §.§ a%B\n\nb%C\n[ a%D   b ]] (blank text nodes dropped under this whitespace policy) *)
+  Let s0 : str := [92;105;116;101;109;91;120;37;65;10;93;32;92;115;117;98;115;101;99;116;105;111;110;123;97;37;66;10;125;92;116;101;120;111;114;112;100;102;115;116;114;105;110;103;123;97;125;123;98;37;67;10;125;92;98;101;103;105;110;123;112;109;97;116;114;105;120;125;97;37;68;10;38;98;92;101;110;100;123;112;109;97;116;114;105;120;125].
+  Let tr : node := match parse_top s0 false cx0 (Parse.ParseWire.walker_state cx0) with
+                   | Ok (ONode (Some n)) _ => n | _ => NList None None [] end.
+  Let okc : opts := {| o_math := MMText; o_keep_comments := true; o_sls := sls_bos; o_kbg := false; o_kbg_minlen := 0 |}.
+  Example C12_comments_kept_covered2_nonvacuous :
+    covered2 lt0 cx0 okc false (is_comment_with [65]) tr
+    /\ covered2 lt0 cx0 okc false (is_comment_with [66]) tr
+    /\ covered2 lt0 cx0 okc false (is_comment_with [67]) tr
+    /\ covered2 lt0 cx0 okc true (is_comment_with [68]) tr /\ solid [37; 68] = true
+    /\ fst (node_text s0 lt0 cx0 okc sls_bos d0 tr) = [10;32;32;120;37;65;10;10;10;32;167;46;167;32;97;37;66;10;10;98;37;67;10;91;32;97;37;68;32;32;32;98;32;93].
+  Proof.
+    assert (T : tr = ltac:(let t := eval vm_compute in tr in exact t)) by (vm_compute; reflexivity).
+    rewrite T. clear T. split; [|split; [|split; [|split; [|split]]]].
+    - eapply cov2_list; [left; reflexivity|].
+      eapply cov2_item with (i := 0%nat); [vm_compute; reflexivity | vm_compute; reflexivity | reflexivity |].
+      eapply cov2_group; [right; left; reflexivity|]. apply cov2_leaf. repeat eexists.
+    - eapply cov2_list; [right; right; left; reflexivity|].
+      eapply cov2_section; [vm_compute; reflexivity | reflexivity |].
+      eapply cov2_group; [right; left; reflexivity|]. apply cov2_leaf. repeat eexists.
+    - eapply cov2_list; [right; right; right; left; reflexivity|].
+      eapply cov2_texorpdf; [vm_compute; reflexivity | vm_compute; reflexivity |].
+      eapply cov2_group; [right; left; reflexivity|]. apply cov2_leaf. repeat eexists.
+    - eapply cov2_list; [right; right; right; right; left; reflexivity|].
+      eapply cov2_matrix; [reflexivity | vm_compute; reflexivity | right; left; reflexivity | reflexivity | reflexivity |].
+      apply cov2_leaf. repeat eexists.
+    - vm_compute. reflexivity.
+    - vm_compute. reflexivity.
+  Qed.
+
+  (** WITNESSES: positions where presence is FALSE of the model (and of the real code: each
+      input was replayed with [LatexNodes2Text(keep_comments=True).latex_to_text]): the kept
+      comment [%c] is not a substring of the output. *)
+  Let lost (s : str) : option bool :=
+    option_map (fun r => infixb [37; 99] (fst r)) (latex_to_text okc s false).
+  Example C12_comments_kept_not_covered_witness :
+    (* accent: \'{e%c\n} *)
+    lost [92;39;123;101;37;99;10;125] = Some false
+    /\     (* math alphabet: \mathbf{x%c\n} *)
+    lost [92;109;97;116;104;98;102;123;120;37;99;10;125] = Some false
+    /\     (* upper-casing section: \section{a%c\n} *)
+    lost [92;115;101;99;116;105;111;110;123;97;37;99;10;125] = Some false
+    /\     (* title without maketitle: \title{a%c\n}b *)
+    lost [92;116;105;116;108;101;123;97;37;99;10;125;98] = Some false
+    /\     (* argument not in the template: \footnote[%c\n1]{x} *)
+    lost [92;102;111;111;116;110;111;116;101;91;37;99;10;49;93;123;120;125] = Some false
+    /\     (* argument not in the template (sqrt): \sqrt[3%c\n]{x} *)
+    lost [92;115;113;114;116;91;51;37;99;10;93;123;120;125] = Some false
+    /\     (* environment argument: \begin{tabular}{c%c\n}x\end{tabular} *)
+    lost [92;98;101;103;105;110;123;116;97;98;117;108;97;114;125;123;99;37;99;10;125;120;92;101;110;100;123;116;97;98;117;108;97;114;125] = Some false
+    /\     (* comment in front of an argument: \textbf%c\n{x} *)
+    lost [92;116;101;120;116;98;102;37;99;10;123;120;125] = Some false.
+  Proof. vm_compute. repeat split. Qed.
+
+  (** the same for verbatim formulas: [$x$] is not a substring of the output *)
+  Let okv : opts := {| o_math := MMVerbatim; o_keep_comments := false; o_sls := sls_bos; o_kbg := false; o_kbg_minlen := 0 |}.
+  Let lostv (w s : str) : option bool :=
+    option_map (fun r => infixb w (fst r)) (latex_to_text okv s false).
+  Example C12_math_verbatim_not_covered_witness :
+    (* accent: \'{$x$} *)
+    lostv [36;120;36] [92;39;123;36;120;36;125] = Some false
+    /\     (* math alphabet: \mathbf{$x$} *)
+    lostv [36;120;36] [92;109;97;116;104;98;102;123;36;120;36;125] = Some false
+    /\     (* upper-casing section: \section{$x$} *)
+    lostv [36;120;36] [92;115;101;99;116;105;111;110;123;36;120;36;125] = Some false
+    /\     (* title without maketitle: \title{$x$}b *)
+    lostv [36;120;36] [92;116;105;116;108;101;123;36;120;36;125;98] = Some false
+    /\     (* argument not in the template: \footnote[$x$]{y} *)
+    lostv [36;120;36] [92;102;111;111;116;110;111;116;101;91;36;120;36;93;123;121;125] = Some false.
+  Proof. vm_compute. repeat split. Qed.
+End Covered2Examples.
+Print Assumptions C12_default_callables.
+Print Assumptions C12_comments_kept_covered2_nonvacuous.
+Print Assumptions C12_comments_kept_not_covered_witness.
+Print Assumptions C12_math_verbatim_not_covered_witness.
+
+(** [infixb] decides [infix]: the witnesses above are statements about [infix] *)
+Theorem C12_infixb_sound : forall a b, infixb a b = false -> ~ infix a b.
+Proof. exact infixb_false. Qed.
+Print Assumptions C12_infixb_sound.
+
+(** the source-level theorems over the extended grammar subsume those over the core grammar
+    (with [C02_core_grammar_embeds]: [ok_doc d -> ok_doc2 (up_doc d)], same written form) *)
+From PLV Require Import Proofs.Compose2CommentsEmbed.
+Theorem C12_same_but_comments_embeds : forall d d',
+  same_but_comments d d' -> same_but_comments2 (up_doc d) (up_doc d').
+Proof. exact same_but_comments_up. Qed.
+Theorem C12_same_but_comments_outside_math_embeds : forall lt d d',
+  same_but_comments_outside_math d d' -> same_but_comments_outside_math2 lt (up_doc d) (up_doc d').
+Proof. exact same_but_comments_outside_math_up. Qed.
+Print Assumptions C12_same_but_comments_embeds.
+Print Assumptions C12_same_but_comments_outside_math_embeds.
